@@ -7,6 +7,8 @@ order_rows). Eager and lazy evaluation are both run and must agree with each oth
 
 from __future__ import annotations
 
+from hypothesis import strategies as st
+
 from .. import cmp, engines, gen, schema, spec
 from ..common import Failure
 from . import c01
@@ -24,7 +26,7 @@ BASE_CFG = {
 }
 
 
-def differential(case):
+def differential(case, zn_override=None):
     info = {}
     try:
         ops = spec.build(case)
@@ -32,7 +34,7 @@ def differential(case):
         info["builder_rejected"] = str(e)
         return None, info
     names = spec.used_tables(case)
-    zn = c01.zn_columns(case)
+    zn = c01.zn_columns(case) if zn_override is None else zn_override
     ordered_by = c01.final_order_cols(case)
     try:
         p = engines.run_pandas(ops, spec.pandas_tables(case, names))
@@ -86,8 +88,50 @@ def classify(case):
 
 
 def replay(check, case):
-    f, _ = differential(case)
+    f, _ = differential(case, zn_override=() if case.get("nan_flow") else None)
     return f
+
+
+# ---- NaN made inside the pipeline -------------------------------------------------------------------------------
+# 0.0 / 0.0 is NaN: Pandas' missing value, SQL's NULL, but a non-null float in Polars. The Polars model handles that
+# explicitly in some methods (count skips NaN, is_bad reports it); "nan_flow" cases compute r = x / y with 0/0 rows
+# (never k/0: infinity is a different story) and feed r to ONE consumer.
+NAN_AWARE = ["count", "max", "min", "size", "is_bad"]  # agree on the unchanged tree
+NAN_OPEN = ["sum", "mean", "is_null", "coalesce", "nunique"]  # recorded finding F78 (flag nan_null_semantics)
+
+
+@st.composite
+def nan_flow_cases(draw, closed=()):
+    from ..gen import FLOAT_VALS
+
+    n = draw(st.integers(1, 6))
+    rows = []
+    for i in range(n):
+        y = draw(st.sampled_from([0.0, 0.0, 1.0, 2.0, 4.0, -2.0]))
+        x = 0.0 if y == 0.0 else draw(st.sampled_from(FLOAT_VALS))
+        rows.append([i + 1, draw(st.sampled_from(["a", "b"])), x, y])
+    t1 = {"cols": [["id", "int", False], ["g", "str", False], ["x", "float", False], ["y", "float", False]], "rows": rows, "keys": [["id"]]}
+    methods = list(NAN_AWARE)
+    excluded = 0
+    if "nan_null_semantics" in closed:
+        excluded = 1
+    else:
+        methods += NAN_OPEN
+    fn = draw(st.sampled_from(methods))
+    R = ["col", "r"]
+    nodes = [{"op": "table", "name": "t1"}, {"op": "extend", "src": 0, "ops": [["r", ["call", "/", [["col", "x"], ["col", "y"]]]]]}]
+    if fn in ("is_bad", "is_null"):
+        nodes.append({"op": "extend", "src": 1, "ops": [["q", ["call", fn, [R]]]]})
+    elif fn == "coalesce":
+        nodes.append({"op": "extend", "src": 1, "ops": [["w", ["call", "coalesce", [R, ["lit", 9.0]]]]]})
+    else:
+        shape = draw(st.sampled_from(["grouped", "ungrouped", "window"]))
+        e = ["call", fn, [R]]
+        if shape == "window" and fn != "nunique":
+            nodes.append({"op": "extend", "src": 1, "ops": [["w", e]], "partition_by": ["g"]})
+        else:
+            nodes.append({"op": "project", "src": 1, "ops": [["w", e]], "group_by": ["g"] if shape != "ungrouped" else []})
+    return {"tables": {"t1": t1}, "nodes": nodes, "root": 2, "expr_mode": "text", "nan_flow": fn, "excluded_by_construction": excluded}
 
 
 def run(ctx):
@@ -121,3 +165,19 @@ def run(ctx):
         return f
 
     ctx.campaign("main", gen.programs(cfg), oracle, max_examples=ctx.n(500, 64000))
+
+    def nan_oracle(case):
+        f, info = differential(case, zn_override=())
+        has_nan = any(r[3] == 0.0 for r in case["tables"]["t1"]["rows"])
+        returned = bool(info.get("polars_returned"))
+        ev.note(case, returned and has_nan, ["nan_flow", "nan_flow_" + case["nan_flow"]] + (["nan_present"] if has_nan else []) + (["polars_returned"] if returned else ["polars_raised"]), sample={"program": c01._sample(case)})
+        for k, v in info.items():
+            if k.startswith("polars_raised_"):
+                ev.count(f"{k}:{v}")
+        if case.get("excluded_by_construction"):
+            ev.count("excluded_by_construction", case["excluded_by_construction"])
+        if f is not None:
+            f.sig["nan_flow"] = case["nan_flow"] in NAN_OPEN
+        return f
+
+    ctx.campaign("nan_flow", nan_flow_cases(ctx.closed), nan_oracle, max_examples=ctx.n(150, 8000))
